@@ -98,6 +98,15 @@ pub struct Report {
     pub max_arena_len: usize,
 }
 
+/// resident set size of this process in GB (0 if unknown)
+pub fn rss_gb() -> f64 {
+    std::fs::read_to_string("/proc/self/statm")
+        .ok()
+        .and_then(|s| s.split_whitespace().nth(1).and_then(|x| x.parse::<f64>().ok()))
+        .map(|pages| pages * 4096.0 / 1e9)
+        .unwrap_or(0.0)
+}
+
 fn fnv(h: &mut u64, bytes: &[u8]) {
     for b in bytes {
         *h ^= *b as u64;
@@ -204,7 +213,7 @@ struct Cand<S: Sut> {
 type Sig = (String, String, String);
 
 /// how many transitions a state tainted by a structural / counter violation is followed
-pub const TAINT_HORIZON: u8 = 4;
+pub const TAINT_HORIZON: u8 = 3;
 
 struct Partial<S: Sut> {
     cands: Vec<Cand<S>>,
@@ -307,7 +316,9 @@ fn expand<S: Sut>(
             Err(msg) => part.record(Viol::new("C20", at.clone(), "panic", msg), st, None, &at),
         }
     }
-    let ops = S::enumerate_ops(uni, &st.model, cfg.alpha, cfg.rep_mode, cfg.retain_all_subsets);
+    // tainted states (after a structural / counter violation) are followed with the reduced alphabet only
+    let alpha = if st.taint > 0 && cfg.alpha == Alphabet::Full { Alphabet::Structural } else { cfg.alpha };
+    let ops = S::enumerate_ops(uni, &st.model, alpha, if st.taint > 0 { cfg.rep_mode.min(1) } else { cfg.rep_mode }, cfg.retain_all_subsets && st.taint == 0);
     for (op_idx, op) in ops.iter().enumerate() {
         let op = *op;
         let mut map = st.map.clone();
@@ -350,10 +361,10 @@ fn expand<S: Sut>(
                     continue;
                 };
                 part.max_arena_len = part.max_arena_len.max(w.arena_len);
-                let taint: u8 = if tainted_now {
-                    1
-                } else if st.taint > 0 {
+                let taint: u8 = if st.taint > 0 {
                     st.taint + 1
+                } else if tainted_now {
+                    1
                 } else {
                     0
                 };
@@ -365,7 +376,6 @@ fn expand<S: Sut>(
                 let key: Box<[u8]> = if taint > 0 {
                     let mut k = key.into_vec();
                     k.push(0xEE);
-                    k.push(taint);
                     k.push(w.count as u8);
                     k.extend(w.free.iter().map(|f| *f as u8));
                     k.into_boxed_slice()
@@ -502,6 +512,11 @@ pub fn explore_collect<S: Sut>(uni: &Universe, cfg: &Config, observers: &[(&'sta
         if visited.len() > cfg.max_states {
             rep.exhaustive = false;
             rep.cap_hit = Some(format!("max_states {} exceeded after layer {}", cfg.max_states, rep.layers));
+            break;
+        }
+        if rss_gb() > 20.0 {
+            rep.exhaustive = false;
+            rep.cap_hit = Some(format!("resident memory above 20 GB after layer {}", rep.layers));
             break;
         }
         if t0.elapsed().as_secs_f64() > cfg.max_wall_s {
